@@ -395,9 +395,24 @@ theorem headGuard_congr (d d' : Gen.D) (ty : String)
   · have h' : (d == .HIVE || d == .DEFAULT) = (d' == .HIVE || d' == .DEFAULT) := h
     simp only [h']
 
+theorem eq_Ps {d d' : Gen.D} {L : Loc} (hC : L.Covers d d') : ∀ es, anyEs L es = false → prPartList d es = prPartList d' es
+  | [] => by intro _; simp [prPartList]
+  | e :: r => by
+    intro hb
+    simp only [anyEs, Bool.or_eq_false_iff] at hb
+    have i2 := eq_Ps hC r hb.2
+    have i1 : prPartItem d e = prPartItem d' e := by
+      cases e with
+      | compare o l r =>
+        have h := hb.1
+        simp only [anyE, Bool.or_eq_false_iff] at h
+        simp only [prPartItem, eq_E hC l h.1.2, eq_E hC r h.2]
+      | _ => simp only [prPartItem, eq_E hC _ hb.1]
+    simp only [prPartList, i1, i2]
+
 theorem eq_OptPartition {d d' : Gen.D} {L : Loc} (hC : L.Covers d d') : ∀ p, anyOEs L p = false → prOptPartition d p = prOptPartition d' p
   | none => fun _ => rfl
-  | some p => fun hb => by simp only [prOptPartition, prPartition, eq_Es hC p (by simpa only [anyOEs] using hb)]
+  | some p => fun hb => by simp only [prOptPartition, prPartition, eq_Ps hC p (by simpa only [anyOEs] using hb)]
 
 theorem eq_Head {d d' : Gen.D} {L : Loc} (hC : L.Covers d d') (h : InsertHead) (hd : headDep d d' h = false) (hb : anyHead L h = false) :
     prInsertHead d h = prInsertHead d' h := by
@@ -435,8 +450,8 @@ theorem eq_Tail {d d' : Gen.D} {L : Loc} (hC : L.Covers d d') (wh : Option Expr)
 
 theorem eq_AlterOp {d d' : Gen.D} {L : Loc} (hC : L.Covers d d') : ∀ o, hasColumnDef o = false → anyAlterOp L o = false →
     prAlterOp d o = prAlterOp d' o
-  | .addPartition _ p, _, hb => by simp only [prAlterOp, prPartition, eq_Es hC p hb]
-  | .dropPartition _ p, _, hb => by simp only [prAlterOp, prPartition, eq_Es hC p hb]
+  | .addPartition _ p, _, hb => by simp only [prAlterOp, prPartition, eq_Ps hC p hb]
+  | .dropPartition _ p, _, hb => by simp only [prAlterOp, prPartition, eq_Ps hC p hb]
   | .renameColumn _ _, _, _ => rfl
   | .dropColumn _, _, _ => rfl
   | .add (.col _), hc, _ => by simp [hasColumnDef] at hc
